@@ -93,7 +93,7 @@ func HandleBlockRequestStream(blockchain blockchain.Blockchain, stream *quic.Str
 	if err != nil {
 		return err
 	}
-	if len(reqPayload) < CE128MinRequestSize {
+	if len(reqPayload) != CE128MinRequestSize {
 		return errors.New("invalid block request length")
 	}
 
